@@ -69,6 +69,32 @@ pub fn judge(rep: &mut Report, prop: &str, origin: &str, ast: &AST, src: &str, r
             rep.skip("out-of-fragment");
             return Judged { outcome: out, judged: false };
         }
+        Res::Ambiguous(m) if m.starts_with("print of a value that contains itself") => {
+            // not pinned whether such a print fails or prints something finite; but everything
+            // before it must be printed, and if it fails nothing of the failing print may appear
+            let p = real::pipeline_from_ast(ast, cap_for(&out), true);
+            if let (None, Some(r)) = (&p.stage_error, &p.run) {
+                rep.conclusive += 1;
+                rep.count("cyclic_print_cases", 1);
+                let bad = if r.capped {
+                    Some("does not terminate")
+                } else if !r.out.starts_with(&out.out) {
+                    Some("loses or changes output produced before the print")
+                } else if !r.ok && r.out != out.out {
+                    Some("fails, yet part of the failing print's text was emitted")
+                } else {
+                    None
+                };
+                if let Some(what) = bad {
+                    rep.violation(
+                        &format!("{}:cyclic-print", prop),
+                        format!("{}: printing a value that contains itself {}.\n  output before the print: {:?}\n  observed ok={} out={:?}\n{}", origin, what, clip(&out.out), r.ok, clip(&r.out), clip(src)),
+                        json!({"check": prop, "src": src, "origin": origin}),
+                    );
+                }
+            }
+            return Judged { outcome: out, judged: false };
+        }
         Res::Ambiguous(_) => {
             rep.skip("ambiguous");
             return Judged { outcome: out, judged: false };
